@@ -182,6 +182,8 @@ type FnVC struct {
 	noOblige        bool
 	lastInlined     bool
 	fnHints         map[string]*ssa.Function
+	letMemo         map[string]string
+	letShapes       []letShape
 	ftParams        []string
 }
 
